@@ -368,6 +368,29 @@ func c19GroupNext(r *Run, ic *iterCopy) string {
 				}
 				return bad("a branch is not the comparison pos < len(groups)")
 			}
+			// a test of the position against a constant: "it is negative" can never hold (the position starts at zero
+			// and only grows) and is a finished case if written; "it is not negative" says nothing
+			if la.ok && lb.ok && ((la.atom == pos && la.c == 0 && lb.atom == "") || (lb.atom == pos && lb.c == 0 && la.atom == "")) {
+				op, k := bo.Op, lb.c
+				if la.atom == "" {
+					flip := map[token.Token]token.Token{token.LSS: token.GTR, token.GTR: token.LSS, token.LEQ: token.GEQ, token.GEQ: token.LEQ, token.EQL: token.EQL, token.NEQ: token.NEQ}
+					op, k = flip[op], la.c
+				}
+				if !d.truth {
+					neg := map[token.Token]token.Token{token.LSS: token.GEQ, token.GEQ: token.LSS, token.LEQ: token.GTR, token.GTR: token.LEQ, token.EQL: token.NEQ, token.NEQ: token.EQL}
+					op = neg[op]
+				}
+				negative := (op == token.LSS && k <= 0) || (op == token.LEQ && k <= -1)
+				nonNegative := (op == token.GEQ && k <= 0) || (op == token.GTR && k <= -1)
+				switch {
+				case negative:
+					lt, known = false, true
+					continue
+				case nonNegative:
+					continue
+				}
+				return bad("a branch is not the comparison pos < len(groups)")
+			}
 			t, ok := ltTruth(bo.Op, la, lb, d.truth, pos, "len")
 			if !ok {
 				return bad("a branch is not the comparison pos < len(groups)")
